@@ -141,3 +141,46 @@ Proof.
   - apply ReachFrom_run. wf_run_tac.
   - exists (78, 0). vm_compute. do 2 eexists. exists (78, 0, 2, 1, 0). eexists. repeat split.
 Qed.
+
+(* ------------------------------------------------------------------ *)
+(* a second observation (C09, "completed is final"): the reset pauses EVERY stored
+   context (keeper/invocation.go:1149, no test on the state), so a context that was
+   killed while its batch was in flight (completed, not yet removed) is a paused
+   context of the new chain; its consumer can start it and it issues batches again.
+   The invariant does not exclude this (no clause of Inv mentions Completed). *)
+Definition rk_state : State := run ex_cfg rx_state [OKill (77, 0) 111 true].
+Definition rk_prep : State := match prep_zero_height rk_state with Some s => s | None => rk_state end.
+
+Theorem restart_killed_resurrected :
+  exists cfg s s' h t s2 c rc0 rc,
+    wf_cfg cfg /\ Reach cfg s /\ prep_zero_height s = Some s' /\ no_oneshot_inflight s
+    /\ 1 <= h /\ 0 <= t /\ Inv cfg (restart cfg s' h t)
+    /\ get c (ctxs s) = Some rc0 /\ c_state rc0 = Completed
+    /\ ReachFrom cfg (restart cfg s' h t) s2
+    /\ get c (ctxs s2) = Some rc /\ c_state rc = Running /\ c_counter rc = c_counter rc0 + 1
+    /\ has c (expq_h s2) = true.
+Proof.
+  assert (Hr : Reach ex_cfg rk_state).
+  { unfold rk_state. apply reach_run; [exact rx_reach|]. wf_run_tac. }
+  assert (Ep : prep_zero_height rk_state = Some rk_prep) by (vm_compute; reflexivity).
+  assert (Hno : no_oneshot_inflight rk_state).
+  { apply no_oneshot_inflight_b_sound. vm_compute. reflexivity. }
+  exists ex_cfg, rk_state, rk_prep, 1, 0.
+  exists (run ex_cfg (restart ex_cfg rk_prep 1 0) [OStart (77, 0) 111 true; OEndBlock 5]).
+  exists (77, 0).
+  assert (G0 : exists rc0, get (77, 0) (ctxs rk_state) = Some rc0 /\ c_state rc0 = Completed
+                           /\ c_counter rc0 = 2).
+  { vm_compute. eexists. repeat split. }
+  destruct G0 as (rc0 & G0 & Hst & Hcnt). exists rc0.
+  assert (G2 : exists rc, get (77, 0) (ctxs (run ex_cfg (restart ex_cfg rk_prep 1 0)
+                 [OStart (77, 0) 111 true; OEndBlock 5])) = Some rc
+               /\ c_state rc = Running /\ c_counter rc = 3).
+  { vm_compute. eexists. repeat split. }
+  destruct G2 as (rc & G2 & Hst2 & Hcnt2). exists rc.
+  split; [exact rx_cfg_wf|]. split; [exact Hr|]. split; [exact Ep|]. split; [exact Hno|].
+  split; [lia|]. split; [lia|].
+  split; [apply (restart_Inv ex_cfg rk_state rk_prep 1 0 rx_cfg_wf Hr Ep Hno); lia|].
+  split; [exact G0|]. split; [exact Hst|].
+  split; [apply ReachFrom_run; wf_run_tac|].
+  split; [exact G2|]. split; [exact Hst2|]. split; [lia|]. vm_compute. reflexivity.
+Qed.
